@@ -105,7 +105,7 @@ func Main(args []string) int {
 	rep.Set("distinct_nontrivial", int(total.Info["nontrivial_executions"]))
 	rep.Set("rule", "state = (height, chain time, digest of all evidence, staking and validator records and the bounty balance) at a block boundary; transition = one block (0..2 transactions, a time step) executed by replaying the scripted prefix plus the whole history from genesis on the real application, the reference model compared with the committed state and the validator updates after EVERY block including the quiet extension; every history is generated once; non-trivial = in the searched part or the extension an allegation, vote, release or staking transaction was accepted, a verdict was reached, or a staking transaction was rejected for a frozen validator (the scripted prefix alone does not count)")
 	rep.Assume("'active validator' is read from the status records (es__vss_) of the previous block boundary for transactions and of the current one for the block-end tally; the records are cross-checked against the validator updates only for guilty validators")
-	rep.Assume("all validators of the Tendermint set sign every block (missed-votes freezes are C10's subject); the accused of an allegation is always one of the validators")
+	rep.Assume("all validators of the Tendermint set sign every block, except in world 'missed' where the accused may miss commits (the missed-votes freeze as such is C10's subject; here it only matters that a guilty verdict still freezes for the release time); the accused of an allegation is always one of the validators")
 	rep.Assume("rounding of 'required votes' and of the penalty to whole OLT is not fixed by the statement: a band between the exact rational value and its ceiling is tolerated and counted")
 
 	var missing []string
@@ -271,7 +271,7 @@ func execHistory(wd *wdef, hist []int, trace io.Writer) explore.BFSOut {
 			amounts = append(amounts, amt)
 			txs = append(txs, buildTx(w, o, amt, fmt.Sprintf("c19-%s-%d", tag, k)))
 		}
-		b := harness.BlockSpec{Txs: txs}
+		b := harness.BlockSpec{Txs: txs, Absent: e.absent}
 		if e.hours > 0 {
 			b.Dt = time.Duration(e.hours) * time.Hour
 		}
